@@ -41,7 +41,15 @@ def getitem(I, st, env, e, frame):
                 stp = const_index(next(it)) if sl.step is not None else None
                 out.append((s2, Str(base.s[lo:hi:stp])))
             elif isinstance(base, (Str, SStr, Cat)):
-                out.append((s2, SStr('slice(%s)' % (vkey(base),), deps_of(base))))
+                def bnd(x):
+                    return '' if x is None else (repr(x.p) if isinstance(x, Num) else repr(vkey(x)))
+                it2 = iter(vs[1:])
+                lo2 = next(it2) if sl.lower is not None else None
+                hi2 = next(it2) if sl.upper is not None else None
+                st2 = next(it2) if sl.step is not None else None
+                tagb = base.tag if isinstance(base, SStr) else repr(vkey(base))
+                out.append((s2, SStr('slice(%s)[%s:%s%s]' % (tagb, bnd(lo2), bnd(hi2), '' if st2 is None else ':' + bnd(st2)),
+                                     deps_of(base))))
             elif base is NONE:
                 out.append((s2, Raised('TypeError', 'None is not subscriptable', (frame.qual(), e.lineno))))
             else:
